@@ -1589,10 +1589,14 @@ impl Rem<Vec4> for Vec4 {
     type Output = Self;
     #[inline]
     fn rem(self, rhs: Self) -> Self {
-        unsafe {
-            let n = m128_floor(_mm_div_ps(self.0, rhs.0));
-            Self(_mm_sub_ps(self.0, _mm_mul_ps(n, rhs.0)))
-        }
+        // There is no SIMD remainder instruction and `a - (a / b).floor() * b` is neither
+        // truncated nor exact, so use the scalar `%` on each element.
+        Self::new(
+            self.x.rem(rhs.x),
+            self.y.rem(rhs.y),
+            self.z.rem(rhs.z),
+            self.w.rem(rhs.w),
+        )
     }
 }
 
